@@ -277,7 +277,7 @@ pub fn set_condition_register_signed(
     // each flag is a 1-bit scalar: assign the 1-bit comparison results
     let lt = Expression::cmplts(lhs.clone(), rhs.clone())?;
     let gt = Expression::cmplts(rhs.clone(), lhs.clone())?;
-    let eq = Expression::cmplts(rhs, lhs)?;
+    let eq = Expression::cmpeq(lhs, rhs)?;
     block.assign(scalar(format!("{}-lt", condition_register.name()), 1), lt);
     block.assign(scalar(format!("{}-gt", condition_register.name()), 1), gt);
     block.assign(scalar(format!("{}-eq", condition_register.name()), 1), eq);
@@ -294,7 +294,7 @@ pub fn set_condition_register_unsigned(
     // each flag is a 1-bit scalar: assign the 1-bit comparison results
     let lt = Expression::cmpltu(lhs.clone(), rhs.clone())?;
     let gt = Expression::cmpltu(rhs.clone(), lhs.clone())?;
-    let eq = Expression::cmpltu(rhs, lhs)?;
+    let eq = Expression::cmpeq(lhs, rhs)?;
     block.assign(scalar(format!("{}-lt", condition_register.name()), 1), lt);
     block.assign(scalar(format!("{}-gt", condition_register.name()), 1), gt);
     block.assign(scalar(format!("{}-eq", condition_register.name()), 1), eq);
